@@ -266,6 +266,18 @@ def check_checksum_long(acc):
             acc.evaluations += 1
             if H.calc_checksum(d) != ref.fletcher8(d):
                 acc.violation("calc_checksum_differs_from_fletcher|long", {"sec": "cksum", "data": d.hex()[:40], "n": n, "fill": fill}, "")
+    # every length around each power of two from 2^6 to 2^16 (block-wise implementations change path there) and a few
+    # odd ones, with content whose running sums are not trivially zero
+    lens = sorted({(1 << k) + d for k in range(6, 17) for d in (-1, 0, 1, 2, 3, 255)} | {1000, 4999, 5000, 12289, 40000})
+    for n in lens:
+        for name, gen in (("ramp7", lambda i: (i * 7 + 3) % 256), ("ones", lambda i: 1), ("alt", lambda i: 0xFF if i % 3 else 0x10)):
+            d = bytes(gen(i) for i in range(n))
+            acc.evaluations += 1
+            if H.calc_checksum(d) != ref.fletcher8(d):
+                acc.violation("calc_checksum_differs_from_fletcher|long", {"sec": "cksum", "n": n, "fill": name}, f"length {n}, content {name}: {H.calc_checksum(d).hex()} vs {ref.fletcher8(d).hex()}")
+            fr = b"\xb5\x62" + d + ref.fletcher8(d)
+            if n <= 65539 and H.isvalid_checksum(fr) is not True:
+                acc.violation("isvalid_checksum_disagrees|long", {"sec": "cksum", "n": n, "fill": name}, f"length {n}, content {name}")
     for tok in ("Uack", "Uunk"):
         f = streams.TOKENS[tok][2]
         for i in range(len(f)):
